@@ -113,6 +113,16 @@ fn main() {
             println!("{}", serde_json::to_string(&r).unwrap());
             std::process::exit(if r["reproduced"].as_bool().unwrap_or(false) { 1 } else { 0 });
         }
+        "digest" => {
+            // concrete behaviour digest of one history with fixed inputs (build comparison, C19)
+            let suite = args.opts.get("suite").cloned().unwrap_or_else(|| "hist".into());
+            let case = args.opts.get("case").cloned().expect("--case");
+            std::env::set_var("SYMX_FIXED", "1");
+            symcore::set_concrete(HashMap::new());
+            let r = suites::replay_case(&suite, &case, &BTreeSet::new(), "", miniwasm);
+            let notes: Vec<String> = r["notes"].as_array().map(|a| a.iter().filter_map(|x| x.as_str().map(|s| s.to_string())).filter(|n| n.starts_with('m') || n.starts_with("outcome")).collect()).unwrap_or_default();
+            println!("{}", serde_json::to_string(&notes).unwrap());
+        }
         "list" => {
             let suite = args.opts.get("suite").cloned().unwrap_or_else(|| "step".into());
             let tier = args.opts.get("tier").cloned().unwrap_or_else(|| "quick".into());
